@@ -467,6 +467,14 @@ impl DPEventLoop {
         }
       }
       REMOVE_READER_TOKEN => {
+        // Additions and removals travel in separate channels, and this event may
+        // be served before the one of an addition that was sent earlier. Do the
+        // pending additions first: otherwise the removal of a reader that is still
+        // waiting to be added finds nothing, and the addition that follows leaves
+        // behind a reader that nobody is ever going to remove.
+        while let Ok(new_reader_ing) = self.add_reader_receiver.receiver.try_recv() {
+          self.add_local_reader(new_reader_ing);
+        }
         while let Ok(old_reader_guid) = self.remove_reader_receiver.receiver.try_recv() {
           self.remove_local_reader(old_reader_guid);
         }
@@ -483,6 +491,10 @@ impl DPEventLoop {
         }
       }
       REMOVE_WRITER_TOKEN => {
+        // Pending additions first, see REMOVE_READER_TOKEN above.
+        while let Ok(new_writer_ingredients) = self.add_writer_receiver.receiver.try_recv() {
+          self.add_local_writer(new_writer_ingredients);
+        }
         while let Ok(writer_guid) = &self.remove_writer_receiver.receiver.try_recv() {
           self.remove_local_writer(writer_guid);
         }
